@@ -421,4 +421,234 @@ example :
     · simp [Policy.filterAttr, Policy.ensureInit, Map.get?]
     · simp [Policy.filterAttr, Policy.ensureInit, Map.get?, attrPoliciesAccept]
 
+/-! ### URL checking, given that normalisation is stable -/
+
+/-- a policy whose attribute handling is filtering plus the URL pass: no link options, no style rules,
+    no forced crossorigin / sandbox, no src rewriter; the rules attach no value pattern to the URL
+    attributes (`blind`); and — the part that belongs to net/url — what `validURL` returns it returns
+    unchanged when it is given back (`stable`) -/
+structure UrlSimple (p : Policy) : Prop where
+  noFollow : p.requireNoFollow = false
+  noFollowFQ : p.requireNoFollowFullyQualifiedLinks = false
+  noReferrer : p.requireNoReferrer = false
+  noReferrerFQ : p.requireNoReferrerFullyQualifiedLinks = false
+  noBlank : p.addTargetBlankToFullyQualifiedLinks = false
+  noStyle : ∀ el, p.hasStylePolicies el = false
+  noCross : p.requireCrossOriginAnonymous = false
+  noSandbox : p.requireSandboxOnIFrame = none
+  noRewriter : p.srcRewriter = none
+  blind : ∀ el aps, p.attrRulesFor el = some aps → ∀ k v v', (k = b!"href" ∨ k = b!"cite" ∨ k = b!"src") →
+    (p.filterAttr el aps false ⟨k, v⟩).isSome = (p.filterAttr el aps false ⟨k, v'⟩).isSome
+  stable : ∀ v v', p.validURL v = some v' → p.validURL v' = some v'
+
+theorem url_sanitizeAttrs (p : Policy) (hs : UrlSimple p) (el : Bytes) (attrs : List Attr) (aps : AttrRules) :
+    p.sanitizeAttrs el attrs aps =
+      (let c := attrs.filter fun a => (p.filterAttr el aps false a).isSome
+       if c.isEmpty then some c
+       else if linkable el && p.requireParseableURLs then mapMOpt (p.urlPassAttr el) c else some c) := by
+  unfold Policy.sanitizeAttrs
+  split
+  · rename_i h; simp [List.isEmpty_iff.mp h]
+  · simp only [hs.noStyle el, filterMap_eq_filter]
+    split
+    · rename_i h; simp [h]
+    · rename_i h
+      unfold Policy.linkPasses Policy.forceSandbox Policy.forceCrossOrigin
+      simp only [hs.noFollow, hs.noFollowFQ, hs.noReferrer, hs.noReferrerFQ, hs.noBlank, hs.noCross, hs.noSandbox,
+        Bool.or_self, Bool.false_and, Bool.false_eq_true, ↓reduceIte, h]
+      by_cases hl : linkable el = true
+      · simp only [hl, ↓reduceIte, Bool.true_and]
+        by_cases hu : p.requireParseableURLs = true
+        · simp only [hu, ↓reduceIte]
+          cases mapMOpt (p.urlPassAttr el) (List.filter (fun a => (p.filterAttr el aps false a).isSome) attrs) <;> rfl
+        · have hu' : p.requireParseableURLs = false := by simpa using hu
+          simp [hu']
+      · have hl' : linkable el = false := by simpa using hl
+        simp [hl']
+
+/-- the URL attribute of an element, if it has one -/
+def urlKeyFor (el : Bytes) : Option Bytes :=
+  if isHrefElement el then some b!"href" else if isCiteElement el then some b!"cite"
+  else if isSrcElement el then some b!"src" else none
+
+theorem urlKeyFor_mem (el k : Bytes) (h : urlKeyFor el = some k) : k = b!"href" ∨ k = b!"cite" ∨ k = b!"src" := by
+  unfold urlKeyFor at h
+  repeat' split at h
+  all_goals (simp only [Option.some.injEq, reduceCtorEq] at h)
+  · exact .inl h.symm
+  · exact .inr (.inl h.symm)
+  · exact .inr (.inr h.symm)
+
+/-- the URL pass for one attribute when no rewriter is installed -/
+theorem urlPassAttr_eq (p : Policy) (hr : p.srcRewriter = none) (el : Bytes) (a : Attr) :
+    p.urlPassAttr el a =
+      match urlKeyFor el with
+      | some k => if a.key == k then some ((p.validURL a.val).map fun u => ⟨a.key, u⟩) else some (some a)
+      | none => some (some a) := by
+  unfold Policy.urlPassAttr urlKeyFor
+  rw [hr]
+  by_cases h1 : isHrefElement el = true
+  · simp only [h1, ↓reduceIte]
+  · have h1' : isHrefElement el = false := by simpa using h1
+    simp only [h1', Bool.false_eq_true, ↓reduceIte]
+    by_cases h2 : isCiteElement el = true
+    · simp only [h2, ↓reduceIte]
+    · have h2' : isCiteElement el = false := by simpa using h2
+      simp only [h2', Bool.false_eq_true, ↓reduceIte]
+      by_cases h3 : isSrcElement el = true
+      · simp only [h3, ↓reduceIte]
+        by_cases hk : (a.key == b!"src") = true
+        · simp only [hk, ↓reduceIte]
+          cases p.validURL a.val <;> rfl
+        · have hk' : (a.key == b!"src") = false := by simpa using hk
+          simp only [hk', Bool.false_eq_true, ↓reduceIte]
+      · have h3' : isSrcElement el = false := by simpa using h3
+        simp only [h3', Bool.false_eq_true, ↓reduceIte]
+
+/-- what the URL pass makes of one attribute: it keeps the key, and a changed value is a `validURL` result
+    of a URL attribute -/
+theorem urlPassAttr_some (p : Policy) (hs : UrlSimple p) (el : Bytes) (a b : Attr) (h : p.urlPassAttr el a = some (some b)) :
+    b.key = a.key ∧ (b = a ∨ ((a.key = b!"href" ∨ a.key = b!"cite" ∨ a.key = b!"src") ∧ p.validURL a.val = some b.val)) := by
+  rw [urlPassAttr_eq p hs.noRewriter] at h
+  split at h
+  · rename_i k hk
+    split at h
+    · rename_i hak
+      have hak' : a.key = k := by simpa using hak
+      simp only [Option.some.injEq, Option.map_eq_some_iff] at h
+      obtain ⟨u, hu, rfl⟩ := h
+      exact ⟨rfl, .inr ⟨by rw [hak']; exact urlKeyFor_mem el k hk, hu⟩⟩
+    · simp only [Option.some.injEq] at h; subst h; exact ⟨rfl, .inl rfl⟩
+  · simp only [Option.some.injEq] at h; subst h; exact ⟨rfl, .inl rfl⟩
+
+/-- the URL pass leaves what it produced as it is -/
+theorem urlPassAttr_fix (p : Policy) (hs : UrlSimple p) (el : Bytes) (a b : Attr) (h : p.urlPassAttr el a = some (some b)) :
+    p.urlPassAttr el b = some (some b) := by
+  rw [urlPassAttr_eq p hs.noRewriter] at h ⊢
+  split at h
+  · rename_i k hk
+    split at h
+    · rename_i hak
+      simp only [Option.some.injEq, Option.map_eq_some_iff] at h
+      obtain ⟨u, hu, rfl⟩ := h
+      simp only [hak, ↓reduceIte, hs.stable _ _ hu, Option.map_some]
+    · simp only [Option.some.injEq] at h; subst h
+      rename_i hak
+      simp only [hak, Bool.false_eq_true, ↓reduceIte]
+  · rfl
+
+theorem mapMOpt_fix {α} (f : α → Option (Option α)) (hf : ∀ a b, f a = some (some b) → f b = some (some b)) :
+    ∀ (l out : List α), mapMOpt f l = some out → mapMOpt f out = some out := by
+  intro l
+  induction l with
+  | nil => intro out h; simp only [mapMOpt, Option.some.injEq] at h; subst h; rfl
+  | cons x xs ih =>
+    intro out h
+    unfold mapMOpt at h
+    split at h
+    · rename_i y ys hy hys
+      simp only [Option.some.injEq] at h; subst h
+      unfold mapMOpt
+      rw [hf x y hy, ih ys hys]
+    · rename_i ys hy hys
+      simp only [Option.some.injEq] at h; subst h
+      exact ih ys hys
+    · cases h
+
+theorem mapMOpt_mem {α} (f : α → Option (Option α)) : ∀ (l out : List α), mapMOpt f l = some out →
+    ∀ b ∈ out, ∃ a ∈ l, f a = some (some b) := by
+  intro l
+  induction l with
+  | nil => intro out h b hb; simp only [mapMOpt, Option.some.injEq] at h; subst h; simp at hb
+  | cons x xs ih =>
+    intro out h b hb
+    unfold mapMOpt at h
+    split at h
+    · rename_i y ys hy hys
+      simp only [Option.some.injEq] at h; subst h
+      rcases List.mem_cons.mp hb with rfl | hb
+      · exact ⟨x, by simp, hy⟩
+      · obtain ⟨a, ha, hfa⟩ := ih ys hys b hb
+        exact ⟨a, List.mem_cons_of_mem _ ha, hfa⟩
+    · rename_i ys hy hys
+      simp only [Option.some.injEq] at h; subst h
+      obtain ⟨a, ha, hfa⟩ := ih ys hys b hb
+      exact ⟨a, List.mem_cons_of_mem _ ha, hfa⟩
+    · cases h
+
+/-- **the URL pass has fixed points** under a `UrlSimple` policy -/
+theorem url_sanitizeAttrs_idem (p : Policy) (hs : UrlSimple p) (el : Bytes) (attrs out : List Attr) (aps : AttrRules)
+    (haps : p.attrRulesFor el = some aps) (h : p.sanitizeAttrs el attrs aps = some out) :
+    p.sanitizeAttrs el out aps = some out := by
+  rw [url_sanitizeAttrs p hs] at h ⊢
+  simp only at h ⊢
+  generalize hacc : (fun a => (p.filterAttr el aps false a).isSome) = acc at h ⊢
+  generalize hc : attrs.filter acc = c at h
+  have hcacc : ∀ a ∈ c, acc a = true := by
+    intro a ha; rw [← hc] at ha; exact (List.mem_filter.mp ha).2
+  have hblind : ∀ k v v', (k = b!"href" ∨ k = b!"cite" ∨ k = b!"src") → acc ⟨k, v⟩ = acc ⟨k, v'⟩ := by
+    intro k v v' hk; rw [← hacc]; exact hs.blind el aps haps k v v' hk
+  by_cases hce : c.isEmpty = true
+  · simp only [hce, ↓reduceIte, Option.some.injEq] at h
+    subst h
+    have : c = [] := List.isEmpty_iff.mp hce
+    subst this
+    rfl
+  · simp only [hce, Bool.false_eq_true, ↓reduceIte] at h
+    by_cases hlu : (linkable el && p.requireParseableURLs) = true
+    · simp only [hlu, ↓reduceIte] at h
+      -- every attribute of `out` is still accepted by the rules
+      have houtacc : ∀ b ∈ out, acc b = true := by
+        intro b hb
+        obtain ⟨a, ha, hfa⟩ := mapMOpt_mem _ c out h b hb
+        obtain ⟨hk, hor⟩ := urlPassAttr_some p hs el a b hfa
+        rcases hor with rfl | ⟨hkey, _⟩
+        · exact hcacc _ ha
+        · have := hblind a.key a.val b.val hkey
+          have hb' : b = ⟨a.key, b.val⟩ := by cases b; simp_all
+          rw [hb', ← this]
+          exact hcacc a ha
+      have hfo : out.filter acc = out := List.filter_eq_self.mpr houtacc
+      rw [hfo]
+      by_cases hoe : out.isEmpty = true
+      · simp only [hoe, ↓reduceIte]
+      · simp only [hoe, Bool.false_eq_true, ↓reduceIte, hlu]
+        exact mapMOpt_fix _ (urlPassAttr_fix p hs el) c out h
+    · simp only [hlu, Bool.false_eq_true, ↓reduceIte, Option.some.injEq] at h
+      subst h
+      have hfc : c.filter acc = c := List.filter_eq_self.mpr hcacc
+      rw [hfc]
+      simp only [hce, Bool.false_eq_true, ↓reduceIte, hlu]
+
+theorem attrFix_of_url (p : Policy) (hs : UrlSimple p) : AttrFix p := by
+  intro t aps attrs _ haps h
+  unfold Policy.cleanAttrs at h ⊢
+  split at h
+  · simp at h; subst h; simp_all
+  · simp only
+    split
+    · rename_i he
+      have : attrs = [] := List.isEmpty_iff.mp he
+      subst this; rfl
+    · exact url_sanitizeAttrs_idem p hs t.data t.attrs attrs aps haps h
+
+/-- **C20, policies that check URLs** (no link options): sanitising twice is sanitising once, for every
+    input, provided URL normalisation is stable — `validURL` returns unchanged what it returned before.
+    That proviso is exactly the part of the clause that belongs to net/url (on Go 1.23 it fails for
+    paths such as `/%2f}`: the known finding `url-reprint-unstable`) -/
+theorem C20_urls (p : Policy) (hp : Plain p.ensureInit) (hs : UrlSimple p.ensureInit) (input : Bytes) :
+    p.sanitizeCore (p.sanitizeCore input) = p.sanitizeCore input :=
+  C20_fix p hp (attrFix_of_url _ hs) input
+
+/-- the proviso is needed, and the model shows why: under a policy that allows relative URLs, `/%2f}` is
+    normalised to `//%7D`, which is refused when it comes back — so the second pass drops the link the
+    first pass kept (the known finding `url-reprint-unstable`, here on the model's `net/url`) -/
+example :
+    let p : Policy := { initialized := true, requireParseableURLs := true, allowRelativeURLs := true,
+                        allowURLSchemes := [(b!"https", [])], elsAndAttrs := [(b!"a", [(b!"href", [none])])] }
+    p.validURL b!"https://a.b/c?d=e#f" = some b!"https://a.b/c?d=e#f" ∧
+    p.validURL b!"/%2f}" = some b!"//%7D" ∧ p.validURL b!"//%7D" = none ∧
+    p.sanitizeCore b!"<a href=\"/%2f}\">t</a>" = b!"<a href=\"//%7D\">t</a>" ∧
+    p.sanitizeCore (p.sanitizeCore b!"<a href=\"/%2f}\">t</a>") = b!"t" := by decide
+
 end BM.Props
